@@ -69,12 +69,50 @@ Section Atomic.
 
   (** ** Node creation *)
 
-  Lemma at_mk_node k id vt m n :
-    mk_node parse k id vt m = Ok n -> nid n = id /\ nvt n = vt /\ ninb n = [] /\ noutb n = [].
+  Lemma at_lookup_meta_set_eq key v (m : meta) : lookup key (meta_set key v m) = Some v.
   Proof.
-    unfold mk_node. destruct k.
-    - intros [= <-]; simpl; auto.
-    - destruct (parse id) as [[v l]|]; [|discriminate]. intros [= <-]; simpl; auto.
+    induction m as [|[k' v'] m IH]; simpl; [rewrite name_eqb_refl; reflexivity|].
+    destruct (name_eqb_spec key k') as [->|Hn]; simpl; [rewrite name_eqb_refl; reflexivity|].
+    destruct (name_ltb key k'); simpl.
+    - rewrite name_eqb_refl; reflexivity.
+    - destruct (name_eqb_spec key k'); [contradiction|exact IH].
+  Qed.
+
+  Lemma at_lookup_meta_set_neq key k2 v (m : meta) :
+    k2 <> key -> lookup k2 (meta_set key v m) = lookup k2 m.
+  Proof.
+    intros Hn. induction m as [|[k' v'] m IH]; simpl.
+    - destruct (name_eqb_spec k2 key); [contradiction|reflexivity].
+    - destruct (name_eqb_spec key k') as [->|Hn']; simpl.
+      + destruct (name_eqb_spec k2 k'); [contradiction|reflexivity].
+      + destruct (name_ltb key k'); simpl.
+        * destruct (name_eqb_spec k2 key); [contradiction|reflexivity].
+        * destruct (name_eqb k2 k'); [reflexivity|exact IH].
+  Qed.
+
+  Lemma at_set_tags_var v l m : meta_var (set_tags v l m) = Some v.
+  Proof. unfold meta_var, meta_get, set_tags. rewrite at_lookup_meta_set_eq. reflexivity. Qed.
+
+  Lemma at_set_tags_lag v l m : meta_lag (set_tags v l m) = Some l.
+  Proof.
+    unfold meta_lag, meta_get, set_tags.
+    rewrite at_lookup_meta_set_neq; [|unfold k_time_lag, k_variable_name; congruence].
+    rewrite at_lookup_meta_set_eq. reflexivity.
+  Qed.
+
+  (** NodeOK of GraphInv.TSInv for one node *)
+  Definition node_ok (k : kind) (n : node) : Prop :=
+    k = TS -> exists v l, parse (nid n) = Some (v, l)
+                          /\ meta_var (nmeta n) = Some v /\ meta_lag (nmeta n) = Some l.
+
+  Lemma at_mk_node k id vt m n :
+    mk_node parse k id vt m = Ok n ->
+    nid n = id /\ nvt n = vt /\ ninb n = [] /\ noutb n = [] /\ node_ok k n.
+  Proof.
+    unfold mk_node, node_ok. destruct k.
+    - intros [= <-]; simpl; repeat split; discriminate.
+    - destruct (parse id) as [[v l]|] eqn:Ep; [|discriminate]. intros [= <-]; simpl.
+      repeat split. intros _. exists v, l. rewrite at_set_tags_var, at_set_tags_lag. auto.
   Qed.
 
   Lemma at_idx_add_push k g n g1 :
@@ -92,7 +130,7 @@ Section Atomic.
   Definition added (k : kind) (g : graph) (id : name) (g1 : graph) : Prop :=
     node_exists g id = false
     /\ exists n ls vs, nid n = id /\ ninb n = [] /\ noutb n = [] /\ idx_of k n ls vs
-                       /\ g1 = ext g [n] ls vs.
+                       /\ g1 = ext g [n] ls vs /\ node_ok k n.
 
   Lemma at_add_node_id_ok k g id vt m g1 :
     add_node_id parse k g id vt m = Ok g1 -> added k g id g1.
@@ -101,7 +139,7 @@ Section Atomic.
     - destruct (node_exists g id) eqn:Ex; [discriminate|].
       destruct (mk_node parse Plain id vt _) as [n|] eqn:Mk; cbn [bind]; [|discriminate].
       intros [= <-]. split; [exact Ex|].
-      apply at_mk_node in Mk. destruct Mk as (H1 & _ & H3 & H4).
+      apply at_mk_node in Mk. destruct Mk as (H1 & _ & H3 & H4 & H5).
       exists n, [], []. repeat split; try assumption.
       unfold ext, push_node; simpl. rewrite !app_nil_r. reflexivity.
     - destruct (mk_node parse TS id vt _) as [n|] eqn:Mk; cbn [bind]; [|discriminate].
@@ -109,8 +147,8 @@ Section Atomic.
       destruct (mk_node parse TS id vt (nmeta n)) as [n2|] eqn:Mk2; cbn [bind]; [|discriminate].
       intros H. apply at_idx_add_push in H. destruct H as (ls & vs & Hi & ->).
       split; [exact Ex|].
-      apply at_mk_node in Mk2. destruct Mk2 as (H1 & _ & H3 & H4).
-      exists n2, ls, vs. auto.
+      apply at_mk_node in Mk2. destruct Mk2 as (H1 & _ & H3 & H4 & H5).
+      exists n2, ls, vs. auto 10.
   Qed.
 
   Lemma at_add_node_obj_ok k g id vt m g1 :
@@ -121,8 +159,8 @@ Section Atomic.
     destruct (mk_node parse k id vt m) as [n|] eqn:Mk; cbn [bind]; [|discriminate].
     intros H. apply at_idx_add_push in H. destruct H as (ls & vs & Hi & ->).
     split; [exact Ex|].
-    apply at_mk_node in Mk. destruct Mk as (H1 & _ & H3 & H4).
-    exists n, ls, vs. auto.
+    apply at_mk_node in Mk. destruct Mk as (H1 & _ & H3 & H4 & H5).
+    exists n, ls, vs. auto 10.
   Qed.
 
   Lemma at_add_endpoint_ok k g id o g1 :
@@ -271,11 +309,11 @@ Section Atomic.
     assert (Habs : cleanup k imp g = g) by (apply at_cleanup_absent; apply at_implicit_absent).
     destruct T as [->|(Hne & g1 & A1 & T)]; [exact Habs|].
     apply at_add_endpoint_ok in A1.
-    destruct A1 as [[Hs ->]|(Hs & ns & ls & vs & Hns & _ & _ & His & ->)].
+    destruct A1 as [[Hs ->]|(Hs & ns & ls & vs & Hns & _ & _ & His & -> & _)].
     - (* the source existed *)
       destruct T as [->|(g2 & A2 & ->)]; [exact Habs|].
       apply at_add_endpoint_ok in A2.
-      destruct A2 as [[Hd ->]|(Hd & nd & ld & vd & Hnd & _ & _ & Hid & ->)]; [exact Habs|].
+      destruct A2 as [[Hd ->]|(Hd & nd & ld & vd & Hnd & _ & _ & Hid & -> & _)]; [exact Habs|].
       subst d imp. cbn [filter]. rewrite Hs, Hd. cbn [negb].
       rewrite at_cleanup_cons. rewrite at_node_exists_ext. simpl find_node.
       rewrite name_eqb_refl, orb_true_r.
@@ -306,7 +344,7 @@ Section Atomic.
         destruct Hid as [<-|[]]; exact Hd0. }
       destruct T as [->|(g2 & A2 & ->)]; [exact Hgl1|].
       apply at_add_endpoint_ok in A2.
-      destruct A2 as [[Hd ->]|(Hd & nd & ld & vd & Hnd & _ & _ & Hid & ->)]; [exact Hgl1|].
+      destruct A2 as [[Hd ->]|(Hd & nd & ld & vd & Hnd & _ & _ & Hid & -> & _)]; [exact Hgl1|].
       rewrite at_ext_ext. subst d.
       assert (Hd' : node_exists g (nid nd) = false).
       { rewrite at_node_exists_ext in Hd. apply orb_false_iff in Hd. apply Hd. }
@@ -667,4 +705,1215 @@ Section Atomic.
     - apply at_outcome_err in H. eapply at_change_edge_type_fail; eassumption.
     - apply at_outcome_err in H. eapply at_replace_edge_fail; eassumption.
   Qed.
+
+  (** ** replace_node: the projection that forgets everything about one node id *)
+
+  Definition not_id (x : name) (n : node) : bool := negb (name_eqb x (nid n)).
+  Definition not_inc (x : name) (e : edge) : bool :=
+    negb (name_eqb x (esrc e) || name_eqb x (edst e)).
+  Definition keep (x y : name) : bool := negb (name_eqb x y).
+  Definition strip (x : name) (n : node) : node :=
+    {| nid := nid n; nvt := nvt n; nmeta := nmeta n;
+       ninb := filter (keep x) (ninb n); noutb := filter (keep x) (noutb n) |}.
+  Definition proj (x : name) (g : graph) : graph :=
+    {| gnodes := map (strip x) (filter (not_id x) (gnodes g));
+       gsrc := filter (not_inc x) (gsrc g); gdst := filter (not_inc x) (gdst g);
+       gmeta := gmeta g;
+       glag := filter (fun p => keep x (snd p)) (glag g);
+       gvar := filter (fun p => keep x (snd p)) (gvar g) |}.
+
+  Lemma at_filter_filter_sub {A} (f f2 : A -> bool) l :
+    (forall a, f2 a = false -> f a = false) -> filter f (filter f2 l) = filter f l.
+  Proof.
+    intros H. induction l as [|a l IH]; simpl; [reflexivity|].
+    destruct (f2 a) eqn:E2; simpl.
+    - rewrite IH; reflexivity.
+    - rewrite (H a E2). exact IH.
+  Qed.
+
+  Lemma at_keep_remove_first x l : filter (keep x) (remove_first x l) = filter (keep x) l.
+  Proof.
+    induction l as [|y l IH]; simpl; [reflexivity|]. unfold keep at 2.
+    destruct (name_eqb x y) eqn:E; simpl; [reflexivity|].
+    unfold keep at 1. rewrite E. simpl. rewrite IH. reflexivity.
+  Qed.
+
+  Lemma at_keep_snoc x l : filter (keep x) (l ++ [x]) = filter (keep x) l.
+  Proof.
+    rewrite filter_app. simpl. unfold keep at 2. rewrite name_eqb_refl. simpl.
+    apply app_nil_r.
+  Qed.
+
+  Lemma at_proj_update x f id ns :
+    (forall n, nid (f n) = nid n) -> (id = x \/ forall n, strip x (f n) = strip x n) ->
+    map (strip x) (filter (not_id x) (update_node f id ns))
+    = map (strip x) (filter (not_id x) ns).
+  Proof.
+    intros Hid Hf. unfold update_node. induction ns as [|n ns IH]; simpl; [reflexivity|].
+    destruct (name_eqb_spec id (nid n)) as [E|E].
+    - assert (Hn1 : not_id x (f n) = not_id x n) by (unfold not_id; rewrite Hid; reflexivity).
+      rewrite Hn1. destruct (not_id x n) eqn:Ex; simpl; [|exact IH].
+      destruct Hf as [Hf|Hf].
+      + exfalso. unfold not_id in Ex. rewrite <- E, Hf, name_eqb_refl in Ex. discriminate.
+      + rewrite Hf, IH. reflexivity.
+    - destruct (not_id x n); simpl; rewrite IH; reflexivity.
+  Qed.
+
+  Lemma at_proj_insert x g e :
+    esrc e = x \/ edst e = x -> proj x (insert_edge g e) = proj x g.
+  Proof.
+    intros Hinc. rewrite at_insert_edge_eq. unfold proj; simpl.
+    assert (Hni : not_inc x e = false).
+    { unfold not_inc. destruct Hinc as [<-|<-]; rewrite name_eqb_refl; [reflexivity|].
+      rewrite orb_true_r; reflexivity. }
+    rewrite !filter_app. simpl. rewrite Hni, !app_nil_r. f_equal.
+    destruct (etype_eqb (ety e) Dir); [|reflexivity].
+    rewrite at_proj_update; [rewrite at_proj_update|..]; try reflexivity.
+    - destruct Hinc as [H|H]; [right|left; exact H]. intros n. unfold strip, ins_inb; simpl.
+      rewrite H, at_keep_snoc. reflexivity.
+    - destruct Hinc as [H|H]; [left; exact H|right]. intros n. unfold strip, ins_outb; simpl.
+      rewrite H, at_keep_snoc. reflexivity.
+  Qed.
+
+  Lemma at_proj_del x g s d e : s = x \/ d = x -> proj x (del_state g s d e) = proj x g.
+  Proof.
+    intros Hinc. unfold proj, del_state; simpl.
+    assert (Hsub : forall a : edge,
+               negb (name_eqb s (esrc a) && name_eqb d (edst a)) = false -> not_inc x a = false).
+    { intros a Ha. apply negb_false_iff, andb_true_iff in Ha. destruct Ha as [H1 H2].
+      apply name_eqb_eq in H1, H2. unfold not_inc. subst s d.
+      destruct Hinc as [<-|<-]; rewrite name_eqb_refl; [reflexivity|].
+      rewrite orb_true_r; reflexivity. }
+    unfold drop_edge. rewrite !(at_filter_filter_sub _ _ _ Hsub). f_equal.
+    destruct (etype_eqb (ety e) Dir); [|reflexivity].
+    rewrite at_proj_update; [rewrite at_proj_update|..]; try reflexivity.
+    - destruct Hinc as [H|H]; [right|left; exact H]. intros n. unfold strip, del_inb; simpl.
+      rewrite H, at_keep_remove_first. reflexivity.
+    - destruct Hinc as [H|H]; [left; exact H|right]. intros n. unfold strip, del_outb; simpl.
+      rewrite H, at_keep_remove_first. reflexivity.
+  Qed.
+
+  Lemma at_idx_of_snd k n ls vs :
+    idx_of k n ls vs -> (forall p, In p ls -> snd p = nid n) /\ (forall p, In p vs -> snd p = nid n).
+  Proof.
+    destruct k; simpl.
+    - intros [-> ->]. split; intros p [].
+    - intros (l & v & _ & _ & -> & ->). split; intros p [<-|[]]; reflexivity.
+  Qed.
+
+  Lemma at_proj_ext x g n ls vs :
+    nid n = x -> (forall p, In p ls -> snd p = x) -> (forall p, In p vs -> snd p = x) ->
+    proj x (ext g [n] ls vs) = proj x g.
+  Proof.
+    intros Hn Hl Hv. unfold proj, ext; simpl. rewrite !filter_app. simpl.
+    unfold not_id at 2. rewrite Hn, name_eqb_refl. simpl. rewrite app_nil_r.
+    rewrite (at_filter_all_false _ ls), (at_filter_all_false _ vs), !app_nil_r; [reflexivity|..].
+    - intros p Hp. rewrite (Hv p Hp). unfold keep. rewrite name_eqb_refl. reflexivity.
+    - intros p Hp. rewrite (Hl p Hp). unfold keep. rewrite name_eqb_refl. reflexivity.
+  Qed.
+
+  Lemma at_keep_true x y : x <> y -> keep x y = true.
+  Proof. intros H. unfold keep. destruct (name_eqb_spec x y); [contradiction|reflexivity]. Qed.
+
+  Lemma at_proj_fresh k x g : Inv parse k g -> ~ In x (node_ids g) -> proj x g = g.
+  Proof.
+    intros I Hx.
+    assert (Hend : forall e, In e (gsrc g) -> esrc e <> x /\ edst e <> x).
+    { intros e He. destruct (inv_endpoints I e He) as [H1 H2]. split; congruence. }
+    assert (Hnodes : map (strip x) (filter (not_id x) (gnodes g)) = gnodes g).
+    { rewrite at_filter_all_true.
+      2:{ intros n Hn. unfold not_id. destruct (name_eqb_spec x (nid n)) as [E|E]; [|reflexivity].
+          exfalso; apply Hx. rewrite E. apply in_map, Hn. }
+      rewrite <- (map_id (gnodes g)) at 2. apply map_ext_in. intros n Hn.
+      destruct n as [i t m inb outb]. unfold strip; simpl. f_equal.
+      - apply at_filter_all_true. intros y Hy. apply at_keep_true. intros <-.
+        apply (Permutation_in _ (inv_inb I _ Hn)) in Hy. simpl in Hy. unfold dir_into in Hy.
+        apply in_map_iff in Hy. destruct Hy as (e & He1 & He2). apply filter_In in He2.
+        destruct (Hend e (proj1 He2)) as [H _]. congruence.
+      - apply at_filter_all_true. intros y Hy. apply at_keep_true. intros <-.
+        apply (Permutation_in _ (inv_outb I _ Hn)) in Hy. simpl in Hy. unfold dir_from in Hy.
+        apply in_map_iff in Hy. destruct Hy as (e & He1 & He2). apply filter_In in He2.
+        destruct (Hend e (proj1 He2)) as [_ H]. congruence. }
+    assert (Hinc : forall e, In e (gsrc g) -> not_inc x e = true).
+    { intros e He. destruct (Hend e He) as [H1 H2]. unfold not_inc.
+      destruct (name_eqb_spec x (esrc e)); [congruence|].
+      destruct (name_eqb_spec x (edst e)); [congruence|]. reflexivity. }
+    assert (Hsrc : filter (not_inc x) (gsrc g) = gsrc g) by (apply at_filter_all_true, Hinc).
+    assert (Hdst : filter (not_inc x) (gdst g) = gdst g).
+    { apply at_filter_all_true. intros e He. apply Hinc.
+      apply (Permutation_in _ (inv_mirror I) He). }
+    assert (Hidx : filter (fun p => keep x (snd p)) (glag g) = glag g
+                   /\ filter (fun p => keep x (snd p)) (gvar g) = gvar g).
+    { destruct k.
+      - destruct (inv_plain_idx I eq_refl) as [-> ->]. split; reflexivity.
+      - destruct (at_inv_winv _ _ I) as [_ W]. destruct (W eq_refl) as [Wl Wv].
+        split; apply at_filter_all_true; intros p Hp; apply at_keep_true; intros E; apply Hx.
+        + rewrite <- Wl, E. apply in_map, Hp.
+        + rewrite <- Wv, E. apply in_map, Hp. }
+    destruct Hidx as [Hl Hv].
+    unfold proj. rewrite Hnodes, Hsrc, Hdst, Hl, Hv. destruct g; reflexivity.
+  Qed.
+
+  Lemma at_proj_rfp {K} (keq : K -> K -> bool) key x (L L' : list (K * name)) :
+    remove_first_pair keq key x L = Some L' ->
+    filter (fun p => keep x (snd p)) L' = filter (fun p => keep x (snd p)) L.
+  Proof.
+    revert L'. induction L as [|[k' id'] L IH]; intros L'; simpl; [discriminate|].
+    destruct (keq key k' && name_eqb x id') eqn:T.
+    - intros [= <-]. apply andb_true_iff in T. destruct T as [_ T].
+      unfold keep at 2. rewrite T. reflexivity.
+    - destruct (remove_first_pair keq key x L) as [r|]; [|discriminate].
+      intros [= <-]. simpl. rewrite (IH r eq_refl). reflexivity.
+  Qed.
+
+  Lemma at_proj_idx_remove k x g n ga :
+    idx_remove k g n = Ok ga -> nid n = x -> proj x ga = proj x g.
+  Proof.
+    unfold idx_remove. destruct k; [intros [= <-]; reflexivity|].
+    destruct (meta_lag (nmeta n)) as [l|]; [|discriminate].
+    destruct (meta_var (nmeta n)) as [v|]; [|discriminate].
+    destruct (remove_first_pair Z.eqb l (nid n) (glag g)) as [gl|] eqn:El; [|discriminate].
+    destruct (remove_first_pair name_eqb v (nid n) (gvar g)) as [gv|] eqn:Ev; [|discriminate].
+    intros [= <-] Hn. rewrite Hn in El, Ev. unfold proj; simpl.
+    rewrite (at_proj_rfp _ _ _ _ _ El), (at_proj_rfp _ _ _ _ _ Ev). reflexivity.
+  Qed.
+
+  Definition del_step (acc : res graph) (e : edge) : res graph :=
+    bind acc (fun g' => delete_edge g' (esrc e) (edst e) None).
+
+  Lemma at_del_fold_err l x : fold_left del_step l (Err x) = Err x.
+  Proof. induction l; simpl; auto. Qed.
+
+  Lemma at_proj_del_fold x l : forall ga gb,
+    fold_left del_step l (Ok ga) = Ok gb ->
+    (forall e, In e l -> esrc e = x \/ edst e = x) -> proj x gb = proj x ga.
+  Proof.
+    induction l as [|e l IH]; simpl; intros ga gb H Hl; [injection H as <-; reflexivity|].
+    destruct (delete_edge ga (esrc e) (edst e) None) as [g1|y] eqn:D.
+    - rewrite (IH g1 gb H); [|intros e' He'; apply Hl; right; exact He'].
+      apply at_delete_edge_ok in D. destruct D as (e0 & _ & _ & _ & ->).
+      apply at_proj_del. apply Hl; left; reflexivity.
+    - rewrite at_del_fold_err in H. discriminate.
+  Qed.
+
+  Lemma at_delete_node_unfold k g id :
+    delete_node k g id
+    = match get_node g id with
+      | None => Err EKey
+      | Some n =>
+          bind (idx_remove k g n) (fun g1 =>
+            bind (fold_left del_step
+                    (filter (fun e => name_eqb id (esrc e) || name_eqb id (edst e)) (sorted_edges g1))
+                    (Ok g1))
+              (fun g2 =>
+                 Ok {| gnodes := filter (not_id id) (gnodes g2);
+                       gsrc := gsrc g2; gdst := gdst g2; gmeta := gmeta g2;
+                       glag := glag g2; gvar := gvar g2 |}))
+      end.
+  Proof. reflexivity. Qed.
+
+  Lemma at_incident_in id l e :
+    In e (filter (fun e => name_eqb id (esrc e) || name_eqb id (edst e)) l) ->
+    In e l /\ (esrc e = id \/ edst e = id).
+  Proof.
+    intros H. apply filter_In in H. destruct H as [H1 H2]. split; [exact H1|].
+    apply orb_true_iff in H2. destruct H2 as [H2|H2]; apply name_eqb_eq in H2; auto.
+  Qed.
+
+  Lemma at_proj_delete_node k g x g3 :
+    delete_node k g x = Ok g3 -> proj x g3 = proj x g /\ ~ In x (node_ids g3).
+  Proof.
+    rewrite at_delete_node_unfold.
+    destruct (get_node g x) as [n|] eqn:Hn; [|discriminate].
+    destruct (idx_remove k g n) as [ga|] eqn:Hr; cbn [bind]; [|discriminate].
+    destruct (fold_left del_step _ (Ok ga)) as [gb|] eqn:Hf; cbn [bind]; [|discriminate].
+    intros [= <-]. split.
+    - unfold get_node in Hn. apply at_find_node_some in Hn. destruct Hn as [_ Hn].
+      rewrite <- (at_proj_idx_remove _ _ _ _ _ Hr Hn).
+      rewrite <- (at_proj_del_fold x _ _ _ Hf).
+      2:{ intros e He. apply at_incident_in in He. apply He. }
+      unfold proj; simpl. rewrite at_filter_filter_sub; [reflexivity|]. intros a Ha; exact Ha.
+    - unfold node_ids; simpl. intros Hin. apply in_map_iff in Hin.
+      destruct Hin as (n' & E & Hin). apply filter_In in Hin. destruct Hin as [_ Hin].
+      unfold not_id in Hin. rewrite <- E, name_eqb_refl in Hin. discriminate.
+  Qed.
+
+  (** ** The invariant-preservation facts used for replace_node (proved in GraphInvProofs.v;
+      kept as an explicit premise here so that this development does not depend on it) *)
+
+  Definition InvFacts : Prop :=
+    (forall k g s d oty g', Inv parse k g -> delete_edge g s d oty = Ok g' -> Inv parse k g')
+    /\ (forall k g s d ty m v g', Inv parse k g -> s <> d -> In s (node_ids g) -> In d (node_ids g) ->
+          (k = TS -> exists ls ld, node_lag g s = Some ls /\ node_lag g d = Some ld /\ (ls <= ld)%Z) ->
+          set_edge g s d ty m v = Ok g' -> Inv parse k g')
+    /\ (forall k g id vt m g', Inv parse k g -> add_node_id parse k g id vt m = Ok g' -> Inv parse k g').
+
+  (** ** delete_node succeeds on every existing node *)
+
+  Definition with_idx (g : graph) (L : list (Z * name)) (V : list (name * name)) : graph :=
+    {| gnodes := gnodes g; gsrc := gsrc g; gdst := gdst g; gmeta := gmeta g;
+       glag := L; gvar := V |}.
+
+  Lemma at_delete_edge_with_idx g L V s d oty :
+    delete_edge (with_idx g L V) s d oty
+    = match delete_edge g s d oty with Ok g' => Ok (with_idx g' L V) | Err x => Err x end.
+  Proof.
+    unfold delete_edge, node_exists, get_node, edge_at, with_idx; simpl.
+    destruct (find_node s (gnodes g)); simpl; [|reflexivity].
+    destruct (find_node d (gnodes g)); simpl; [|reflexivity].
+    destruct (find_edge s d (gsrc g)) as [e|]; [|reflexivity].
+    destruct (match oty with Some t => negb (etype_eqb t (ety e)) | None => false end);
+      reflexivity.
+  Qed.
+
+  Lemma at_del_fold_with_idx L V l : forall g,
+    fold_left del_step l (Ok (with_idx g L V))
+    = match fold_left del_step l (Ok g) with Ok gb => Ok (with_idx gb L V) | Err x => Err x end.
+  Proof.
+    induction l as [|e l IH]; intros g; simpl; [reflexivity|].
+    rewrite at_delete_edge_with_idx.
+    destruct (delete_edge g (esrc e) (edst e) None) as [g1|x].
+    - apply IH.
+    - rewrite !at_del_fold_err. reflexivity.
+  Qed.
+
+  Lemma at_delete_edge_succeeds g s d e :
+    node_exists g s = true -> node_exists g d = true -> edge_at g s d = Some e ->
+    delete_edge g s d None = Ok (del_state g s d e).
+  Proof. intros Hs Hd He. unfold delete_edge. rewrite Hs, Hd, He. reflexivity. Qed.
+
+  Lemma at_del_fold_ok k (HF : InvFacts) l : forall g,
+    Inv parse k g -> NoDup (map edge_key l) -> (forall e, In e l -> In e (gsrc g)) ->
+    exists gb, fold_left del_step l (Ok g) = Ok gb /\ Inv parse k gb
+               /\ (forall e, In e (gsrc gb) -> In e (gsrc g) /\ ~ In (edge_key e) (map edge_key l)).
+  Proof.
+    induction l as [|e l IH]; intros g I ND Hl; simpl.
+    { exists g. split; [reflexivity|split; [exact I|]]. intros e He; split; [exact He|intros []]. }
+    inversion ND as [|? ? Hn ND']; subst.
+    assert (He : In e (gsrc g)) by (apply Hl; left; reflexivity).
+    destruct (inv_endpoints I e He) as [Hs Hd].
+    assert (Hdel : delete_edge g (esrc e) (edst e) None = Ok (del_state g (esrc e) (edst e) e)).
+    { apply at_delete_edge_succeeds.
+      - apply at_node_exists_in, Hs.
+      - apply at_node_exists_in, Hd.
+      - apply at_find_edge_in; [apply (inv_nodup_keys I)|exact He]. }
+    rewrite Hdel.
+    destruct (IH (del_state g (esrc e) (edst e) e)) as (gb & Hf & Ib & Hsub).
+    - destruct HF as (HF1 & _). eapply HF1; [exact I|exact Hdel].
+    - exact ND'.
+    - intros e' He'. simpl. unfold drop_edge. apply filter_In. split; [apply Hl; right; exact He'|].
+      destruct (name_eqb_spec (esrc e) (esrc e')) as [E1|E1]; [|reflexivity].
+      destruct (name_eqb_spec (edst e) (edst e')) as [E2|E2]; [|reflexivity].
+      exfalso; apply Hn. unfold edge_key at 1. rewrite E1, E2. apply (in_map edge_key _ _ He').
+    - exists gb. split; [exact Hf|split; [exact Ib|]].
+      intros e' He'. destruct (Hsub e' He') as [H1 H2]. simpl in H1. unfold drop_edge in H1.
+      apply filter_In in H1. destruct H1 as [H1 H3]. split; [exact H1|].
+      intros [E|E]; [|exact (H2 E)].
+      unfold edge_key in E. injection E as E1 E2. rewrite E1, E2, !name_eqb_refl in H3.
+      discriminate.
+  Qed.
+
+  Lemma at_rfp_found {K} (keq : K -> K -> bool) (F : node -> option K) (L : list (K * name)) NS n l :
+    (forall a, keq a a = true) ->
+    Forall2 (fun p n => snd p = nid n /\ F n = Some (fst p)) L NS -> In n NS -> F n = Some l ->
+    exists L', remove_first_pair keq l (nid n) L = Some L'.
+  Proof.
+    intros Hk F2. induction F2 as [|[k' id'] n0 L NS [H1 H2] F2 IH]; intros Hin HF; [contradiction|].
+    simpl in *. destruct (keq l k' && name_eqb (nid n) id') eqn:T; [eexists; reflexivity|].
+    destruct Hin as [->|Hin].
+    - exfalso. rewrite HF in H2. injection H2 as ->. rewrite H1, Hk, name_eqb_refl in T.
+      discriminate.
+    - destruct (IH Hin HF) as (L' & ->). eexists; reflexivity.
+  Qed.
+
+  Lemma at_rfp_in {K} (keq : K -> K -> bool) key x (L L' : list (K * name)) :
+    remove_first_pair keq key x L = Some L' -> In x (map snd L).
+  Proof.
+    revert L'. induction L as [|[k' id'] L IH]; intros L'; simpl; [discriminate|].
+    destruct (keq key k' && name_eqb x id') eqn:T.
+    - intros _. apply andb_true_iff in T. destruct T as [_ T]. apply name_eqb_eq in T. auto.
+    - destruct (remove_first_pair keq key x L) as [r|]; [|discriminate].
+      intros _. right. eapply IH; reflexivity.
+  Qed.
+
+  Lemma at_rfp_clean {K} (keq : K -> K -> bool) key x (L L' : list (K * name)) :
+    NoDup (map snd L) -> remove_first_pair keq key x L = Some L' -> ~ In x (map snd L').
+  Proof.
+    revert L'. induction L as [|[k' id'] L IH]; intros L' ND; simpl; [discriminate|].
+    simpl in ND. inversion ND as [|? ? Hn ND']; subst.
+    destruct (keq key k' && name_eqb x id') eqn:T.
+    - intros [= <-]. apply andb_true_iff in T. destruct T as [_ T]. apply name_eqb_eq in T.
+      subst id'. exact Hn.
+    - destruct (remove_first_pair keq key x L) as [r|] eqn:R; [|discriminate].
+      intros [= <-]. simpl. intros [E|E].
+      + apply Hn. rewrite E. eapply at_rfp_in; exact R.
+      + exact (IH r ND' eq_refl E).
+  Qed.
+
+  Lemma at_idx_remove_ok k g n :
+    Inv parse k g -> In n (gnodes g) ->
+    exists L V, idx_remove k g n = Ok (with_idx g L V)
+                /\ ~ In (nid n) (map snd L) /\ ~ In (nid n) (map snd V).
+  Proof.
+    intros I Hn. unfold idx_remove. destruct k.
+    - exists (glag g), (gvar g). split; [destruct g; reflexivity|].
+      destruct (inv_plain_idx I eq_refl) as [-> ->]. split; intros [].
+    - pose proof (inv_ts I eq_refl) as T.
+      destruct (at_inv_winv _ _ I) as [_ W]. destruct (W eq_refl) as [Wl Wv].
+      destruct (ts_nodeok T n Hn) as (v & l & _ & Hv & Hl). rewrite Hl, Hv.
+      destruct (at_rfp_found Z.eqb (fun n => meta_lag (nmeta n)) (glag g) (gnodes g) n l
+                  Z.eqb_refl (ts_lagidx T) Hn Hl) as (L & EL).
+      destruct (at_rfp_found name_eqb (fun n => meta_var (nmeta n)) (gvar g) (gnodes g) n v
+                  name_eqb_refl (ts_varidx T) Hn Hv) as (V & EV).
+      rewrite EL, EV. exists L, V. split; [reflexivity|]. split.
+      + eapply at_rfp_clean; [|exact EL]. rewrite Wl. apply (inv_nodup_nodes I).
+      + eapply at_rfp_clean; [|exact EV]. rewrite Wv. apply (inv_nodup_nodes I).
+  Qed.
+
+  (** [delete_node] succeeds on an existing node and leaves no trace of its id *)
+  Lemma at_delete_node_spec k (HF : InvFacts) g x :
+    Inv parse k g -> node_exists g x = true ->
+    exists g3, delete_node k g x = Ok g3 /\ proj x g3 = g3.
+  Proof.
+    intros I Hx. rewrite at_delete_node_unfold. unfold node_exists in Hx.
+    destruct (get_node g x) as [n|] eqn:Hn; [|discriminate].
+    unfold get_node in Hn. apply at_find_node_some in Hn. destruct Hn as [Hn Hnx].
+    destruct (at_idx_remove_ok k g n I Hn) as (L & V & -> & HL & HV). cbn [bind].
+    rewrite Hnx in HL, HV.
+    change (sorted_edges (with_idx g L V)) with (sorted_edges g).
+    rewrite at_del_fold_with_idx.
+    set (inc := filter (fun e => name_eqb x (esrc e) || name_eqb x (edst e)) (sorted_edges g)).
+    destruct (at_del_fold_ok k HF inc g I) as (gb & -> & Ib & Hsub).
+    { apply at_nodup_keys_filter. unfold sorted_edges.
+      eapply at_nodup_keys_perm; [apply isort_perm|apply (inv_nodup_keys I)]. }
+    { intros e He. apply filter_In in He. destruct He as [He _]. unfold sorted_edges in He.
+      apply isort_in in He. exact He. }
+    cbn [bind]. eexists. split; [reflexivity|].
+    (* no edge incident to x is left *)
+    assert (Hclean : forall e, In e (gsrc gb) -> esrc e <> x /\ edst e <> x).
+    { intros e He. destruct (Hsub e He) as [H1 H2].
+      assert (Hni : ~ In e inc) by (intros H; apply H2; apply in_map; exact H).
+      split; intros E; apply Hni; subst inc; apply filter_In;
+        (split; [unfold sorted_edges; apply isort_in; exact H1|]);
+        rewrite E, name_eqb_refl; [reflexivity|apply orb_true_r]. }
+    unfold proj, with_idx; simpl. f_equal.
+    - rewrite at_filter_filter_sub; [|intros a Ha; exact Ha].
+      rewrite <- (map_id (filter (not_id x) (gnodes gb))) at 2. apply map_ext_in.
+      intros a Ha. apply filter_In in Ha. destruct Ha as [Ha _].
+      destruct a as [i t m inb outb]. unfold strip; simpl. f_equal.
+      + apply at_filter_all_true. intros y Hy. apply at_keep_true. intros <-.
+        apply (Permutation_in _ (inv_inb Ib _ Ha)) in Hy. simpl in Hy. unfold dir_into in Hy.
+        apply in_map_iff in Hy. destruct Hy as (e & He1 & He2). apply filter_In in He2.
+        destruct (Hclean e (proj1 He2)) as [H _]. congruence.
+      + apply at_filter_all_true. intros y Hy. apply at_keep_true. intros <-.
+        apply (Permutation_in _ (inv_outb Ib _ Ha)) in Hy. simpl in Hy. unfold dir_from in Hy.
+        apply in_map_iff in Hy. destruct Hy as (e & He1 & He2). apply filter_In in He2.
+        destruct (Hclean e (proj1 He2)) as [_ H]. congruence.
+    - apply at_filter_all_true. intros e He. destruct (Hclean e He) as [H1 H2]. unfold not_inc.
+      destruct (name_eqb_spec x (esrc e)); [congruence|].
+      destruct (name_eqb_spec x (edst e)); [congruence|]. reflexivity.
+    - apply at_filter_all_true. intros e He.
+      apply (Permutation_in _ (inv_mirror Ib)) in He.
+      destruct (Hclean e He) as [H1 H2]. unfold not_inc.
+      destruct (name_eqb_spec x (esrc e)); [congruence|].
+      destruct (name_eqb_spec x (edst e)); [congruence|]. reflexivity.
+    - apply at_filter_all_true. intros p Hp. apply at_keep_true. intros E. apply HL.
+      rewrite E. apply in_map, Hp.
+    - apply at_filter_all_true. intros p Hp. apply at_keep_true. intros E. apply HV.
+      rewrite E. apply in_map, Hp.
+  Qed.
+
+  Lemma at_delete_node_succeeds k (HF : InvFacts) g x :
+    Inv parse k g -> node_exists g x = true -> exists g3, delete_node k g x = Ok g3.
+  Proof.
+    intros I Hx. destruct (at_delete_node_spec k HF g x I Hx) as (g3 & H & _).
+    exists g3; exact H.
+  Qed.
+
+  (** ** The copies made by replace_node *)
+
+  Definition seq_step (k : kind) (acc : res graph * graph) (c : endpoint * endpoint * etype * meta)
+    : res graph * graph :=
+    match acc with
+    | (Ok g', _) => let '(sp, dp, ty, m) := c in add_edge parse k g' sp dp ty (Some m) true
+    | (Err x, gl) => (Err x, gl)
+    end.
+
+  Lemma at_seq_edges_eq k g calls :
+    seq_edges parse k g calls = fold_left (seq_step k) calls (Ok g, g).
+  Proof. reflexivity. Qed.
+
+  Lemma at_seq_err k calls x gl : fold_left (seq_step k) calls (Err x, gl) = (Err x, gl).
+  Proof. induction calls; simpl; auto. Qed.
+
+  Lemma at_orient_ok k g s d ty s' d' :
+    orient k g s d ty = Ok (s', d') ->
+    ((s' = s /\ d' = d) \/ (s' = d /\ d' = s))
+    /\ (k = TS -> exists ls ld, node_lag g s' = Some ls /\ node_lag g d' = Some ld /\ (ls <= ld)%Z).
+  Proof.
+    unfold orient. destruct k.
+    - intros [= <- <-]. split; [left; auto|discriminate].
+    - destruct (node_lag g s) as [ls|] eqn:Ls; [|discriminate].
+      destruct (node_lag g d) as [ld|] eqn:Ld; [|discriminate].
+      destruct (Z.ltb_spec ld ls) as [Hlt|Hge].
+      + destruct (etype_eqb ty Dir); [discriminate|]. intros [= <- <-].
+        split; [right; auto|]. intros _. exists ld, ls. repeat split; try assumption. lia.
+      + intros [= <- <-]. split; [left; auto|]. intros _. exists ls, ld. auto.
+  Qed.
+
+  Lemma at_set_edge_ok g s d ty m v g3 :
+    set_edge g s d ty m v = Ok g3 ->
+    g3 = insert_edge g {| esrc := s; edst := d; ety := ty; emeta := m |}
+    /\ edge_at g s d = None /\ edge_at g d s = None.
+  Proof.
+    unfold set_edge.
+    destruct (edge_at g s d); [discriminate|]. destruct (edge_at g d s); [discriminate|].
+    destruct v.
+    - destruct (depends_on_itself _ d) as [[|]|]; [|intros [= <-]; auto|discriminate].
+      destruct (delete_edge _ s d None); simpl; discriminate.
+    - intros [= <-]; auto.
+  Qed.
+
+  Lemma at_add_edge_existing_ok k (HF : InvFacts) g s d ty m v g3 gl x :
+    Inv parse k g -> node_exists g s = true -> node_exists g d = true -> (s = x \/ d = x) ->
+    add_edge parse k g (str_ep s) (str_ep d) ty m v = (Ok g3, gl) ->
+    gl = g3 /\ Inv parse k g3 /\ Forall2 node_same (gnodes g3) (gnodes g) /\ proj x g3 = proj x g.
+  Proof.
+    intros I Hs Hd Hx. rewrite at_add_edge_unfold.
+    destruct (name_eqb_spec s d) as [E|Hne].
+    { unfold add_edge_try, str_ep. cbn [fst]. subst d. rewrite name_eqb_refl. discriminate. }
+    rewrite at_try_existing; try assumption.
+    destruct (edge_at g s d); [discriminate|].
+    destruct (orient k g s d ty) as [[s' d']|] eqn:Or; [|discriminate].
+    destruct (set_edge g s' d' ty _ v) as [g4|] eqn:Se; [|discriminate].
+    intros [= <- <-]. split; [reflexivity|].
+    apply at_orient_ok in Or. destruct Or as [Hsd Hlag].
+    destruct (at_set_edge_ok _ _ _ _ _ _ _ Se) as (Eg & _ & _).
+    destruct HF as (_ & HF2 & _).
+    assert (Hs' : In s' (node_ids g) /\ In d' (node_ids g) /\ s' <> d' /\ (s' = x \/ d' = x)).
+    { apply at_node_exists_in in Hs, Hd.
+      destruct Hsd as [[-> ->]|[-> ->]]; repeat split; auto. tauto. }
+    destruct Hs' as (Hs' & Hd' & Hne' & Hx').
+    split; [|split].
+    - eapply HF2; [exact I|exact Hne'|exact Hs'|exact Hd'|exact Hlag|exact Se].
+    - rewrite Eg. apply at_ins_same.
+    - rewrite Eg. apply at_proj_insert. simpl. exact Hx'.
+  Qed.
+
+  Lemma at_seq_fold k (HF : InvFacts) x g0 calls : forall g',
+    Inv parse k g' -> Forall2 node_same (gnodes g') (gnodes g0) ->
+    (forall c, In c calls -> exists s d ty m,
+        c = (str_ep s, str_ep d, ty, m) /\ node_exists g0 s = true /\ node_exists g0 d = true
+        /\ (s = x \/ d = x)) ->
+    forall r g2, fold_left (seq_step k) calls (Ok g', g') = (r, g2) ->
+    Inv parse k g2 /\ Forall2 node_same (gnodes g2) (gnodes g0) /\ proj x g2 = proj x g'
+    /\ (forall ga, r = Ok ga -> ga = g2).
+  Proof.
+    induction calls as [|c calls IH]; intros g' I Hsame Hc r g2; simpl.
+    - intros [= <- <-]. split; [exact I|split; [exact Hsame|split; [reflexivity|]]].
+      intros ga [= <-]; reflexivity.
+    - destruct (Hc c (or_introl eq_refl)) as (s & d & ty & m & -> & Hs & Hd & Hx).
+      cbn [seq_step].
+      destruct (add_edge parse k g' (str_ep s) (str_ep d) ty (Some m) true) as [[g3|e] gl] eqn:A.
+      + apply (at_add_edge_existing_ok k HF g' s d ty (Some m) true g3 gl x) in A; try assumption.
+        2:{ rewrite (at_same_exists _ _ _ Hsame); exact Hs. }
+        2:{ rewrite (at_same_exists _ _ _ Hsame); exact Hd. }
+        destruct A as (-> & I3 & S3 & P3). intros Hfold.
+        destruct (IH g3 I3 (at_same_trans _ _ _ S3 Hsame)
+                    (fun c' Hc' => Hc c' (or_intror Hc')) r g2 Hfold) as (A1 & A2 & A3 & A4).
+        split; [exact A1|split; [exact A2|split; [rewrite A3; exact P3|exact A4]]].
+      + apply at_add_edge_fail in A; [|apply at_inv_winv, I]. subst gl.
+        rewrite at_seq_err. intros [= <- <-].
+        split; [exact I|split; [exact Hsame|split; [reflexivity|discriminate]]].
+  Qed.
+
+  (** ** replace_node *)
+
+  Lemma at_replace_node_base_fail k (HF : InvFacts) g id new_id vt m e g' :
+    Inv parse k g -> replace_node_base parse k g id new_id vt m = (Err e, g') -> g' = g.
+  Proof.
+    intros I. unfold replace_node_base.
+    destruct (get_node g id) as [n|] eqn:Hn; [|intros [= _ <-]; reflexivity].
+    destruct new_id as [id'|]; [|discriminate].
+    destruct (node_exists g id') eqn:Hex; [intros [= _ <-]; reflexivity|].
+    destruct (add_node_id parse k g id' _ _) as [g1|x] eqn:A; [|intros [= _ <-]; reflexivity].
+    assert (I1 : Inv parse k g1).
+    { destruct HF as (_ & _ & HF3). eapply HF3; eassumption. }
+    apply at_add_node_id_ok in A.
+    destruct A as (_ & n' & ls & vs & Hid' & _ & _ & Hidx & Eg1 & _).
+    assert (Hid_ex : node_exists g1 id = true).
+    { rewrite Eg1, at_node_exists_ext. unfold node_exists. rewrite Hn. reflexivity. }
+    assert (Hid'_ex : node_exists g1 id' = true).
+    { rewrite Eg1, at_node_exists_ext. simpl. rewrite Hid', name_eqb_refl. apply orb_true_r. }
+    assert (Hproj1 : proj id' g1 = g).
+    { rewrite Eg1. destruct (at_idx_of_snd _ _ _ _ Hidx) as [Hl Hv].
+      rewrite at_proj_ext; [|exact Hid'|intros p Hp; rewrite (Hl p Hp); exact Hid'
+                            |intros p Hp; rewrite (Hv p Hp); exact Hid'].
+      apply (at_proj_fresh k); [exact I|]. apply at_node_exists_false, Hex. }
+    match goal with |- context [seq_edges parse k g1 ?c] => set (calls := c) end.
+    destruct (seq_edges parse k g1 calls) as [r g2] eqn:S. rewrite at_seq_edges_eq in S.
+    apply (at_seq_fold k HF id' g1) in S; [|exact I1| |].
+    2:{ apply at_Forall2_refl. intros a; repeat split. }
+    2:{ intros c Hc. subst calls. apply in_app_iff in Hc.
+        destruct Hc as [Hc|Hc]; apply in_map_iff in Hc; destruct Hc as (e0 & <- & He0).
+        - exists (esrc e0), id', (ety e0), (emeta e0). repeat split; auto.
+          unfold edges_into in He0. apply isort_in in He0. apply filter_In in He0.
+          destruct He0 as [He0 _]. apply (Permutation_in _ (inv_mirror I1)) in He0.
+          apply at_node_exists_in. apply (inv_endpoints I1 e0 He0).
+        - exists id', (edst e0), (ety e0), (emeta e0). repeat split; auto.
+          unfold edges_from in He0. apply isort_in in He0. apply filter_In in He0.
+          destruct He0 as [He0 _].
+          apply at_node_exists_in. apply (inv_endpoints I1 e0 He0). }
+    destruct S as (I2 & S2 & P2 & Hr).
+    destruct r as [ga|x].
+    - rewrite (Hr ga eq_refl).
+      destruct (at_delete_node_succeeds k HF g2 id I2) as (g3 & ->); [|discriminate].
+      rewrite (at_same_exists _ _ _ S2). exact Hid_ex.
+    - destruct (at_delete_node_spec k HF g2 id' I2) as (g3 & D & Hclean).
+      { rewrite (at_same_exists _ _ _ S2). exact Hid'_ex. }
+      rewrite D. intros [= _ <-].
+      destruct (at_proj_delete_node _ _ _ _ D) as [P3 _].
+      rewrite <- Hclean. rewrite P3, P2. exact Hproj1.
+  Qed.
+
+  Lemma at_replace_node_fail k (HF : InvFacts) g id new_id lag var vt m e g' :
+    Inv parse k g -> replace_node parse fmt k g id new_id lag var vt m = (Err e, g') -> g' = g.
+  Proof.
+    intros I. unfold replace_node. cbv zeta. destruct k.
+    - destruct lag, var; try (intros [= _ <-]; reflexivity).
+      apply at_replace_node_base_fail; assumption.
+    - match goal with |- match ?r with _ => _ end = _ -> _ => destruct r as [nid'|x] end;
+        [|intros [= _ <-]; reflexivity].
+      match goal with |- match ?r with _ => _ end = _ -> _ => destruct r as [m'|x] end;
+        [|intros [= _ <-]; reflexivity].
+      apply at_replace_node_base_fail; assumption.
+  Qed.
+
+  (** ** The full statement, relative to the invariant-preservation facts *)
+
+  Lemma at_failed_step_equiv_rel :
+    InvFacts -> failed_step_equiv_statement parse fmt.
+  Proof.
+    intros HF k g o e I Hs H.
+    destruct (not_replace_node o) eqn:Hn.
+    - eapply failed_step_equiv_partial; eassumption.
+    - destruct o; try discriminate. unfold outcome, step in *. cbn [run_op] in *.
+      apply at_outcome_err in H. apply (at_replace_node_fail k HF) in H; [|exact I].
+      rewrite H. apply equiv_refl.
+  Qed.
+
+  (** ** Local proofs of the invariant-preservation facts *)
+
+  Lemma at_Forall2_in_l {A B} (R : A -> B -> Prop) l1 l2 a :
+    Forall2 R l1 l2 -> In a l1 -> exists b, In b l2 /\ R a b.
+  Proof.
+    induction 1 as [|x y l1 l2 Hxy F IH]; intros Hin; [contradiction|].
+    destruct Hin as [->|Hin]; [exists y; split; [left; reflexivity|exact Hxy]|].
+    destruct (IH Hin) as (b & Hb & Hr). exists b; split; [right; exact Hb|exact Hr].
+  Qed.
+
+  Lemma at_Forall2_comp {A B} (Q : A -> B -> Prop) (R : B -> B -> Prop) L l1 l2 :
+    (forall p b a, Q p b -> R a b -> Q p a) ->
+    Forall2 Q L l2 -> Forall2 R l1 l2 -> Forall2 Q L l1.
+  Proof.
+    intros H F. revert l1. induction F as [|p b L l2 Hpb F IH]; intros l1 F2;
+      inversion F2; subst; constructor; eauto.
+  Qed.
+
+  Lemma at_in_keys_filter (f : edge -> bool) key l :
+    In key (map edge_key (filter f l)) -> In key (map edge_key l).
+  Proof.
+    intros H. apply in_map_iff in H. destruct H as (e & <- & He). apply filter_In in He.
+    apply in_map, He.
+  Qed.
+
+  Lemma at_remove_first_perm_cons x l X :
+    Permutation l (x :: X) -> Permutation (remove_first x l) X.
+  Proof.
+    intros P. apply (Permutation_cons_inv (a := x)).
+    assert (Hin : In x l) by (apply (Permutation_in _ (Permutation_sym P)); left; reflexivity).
+    rewrite <- P. rewrite <- (at_remove_first_perm x l Hin) at 2.
+    apply Permutation_cons_append.
+  Qed.
+
+  Lemma at_key_in_none s d l : find_edge s d l = None -> ~ In (s, d) (map edge_key l).
+  Proof.
+    intros H Hin. apply in_map_iff in Hin. destruct Hin as (e & E & He).
+    unfold edge_key in E. injection E as E1 E2.
+    rewrite at_find_edge_none in H. apply (H e He); auto.
+  Qed.
+
+  Lemma at_tsinv_frame g g' :
+    TSInv parse g -> Forall2 node_same (gnodes g') (gnodes g) ->
+    glag g' = glag g -> gvar g' = gvar g ->
+    (forall e, In e (gsrc g') ->
+       In e (gsrc g) \/ exists ls ld, node_lag g (esrc e) = Some ls /\ node_lag g (edst e) = Some ld
+                                     /\ (ls <= ld)%Z) ->
+    TSInv parse g'.
+  Proof.
+    intros [T1 T2 T3 T4] Hsame El Ev He. constructor.
+    - intros n' Hn'. destruct (at_Forall2_in_l _ _ _ _ Hsame Hn') as (n & Hn & Ei & _ & Em).
+      rewrite Ei, Em. apply T1, Hn.
+    - rewrite El. eapply at_Forall2_comp; [|exact T2|exact Hsame].
+      intros p b a [Q1 Q2] (Ei & _ & Em). rewrite Ei, Em. auto.
+    - rewrite Ev. eapply at_Forall2_comp; [|exact T3|exact Hsame].
+      intros p b a [Q1 Q2] (Ei & _ & Em). rewrite Ei, Em. auto.
+    - intros e Hin. rewrite !(at_same_lag _ _ _ Hsame).
+      destruct (He e Hin) as [Hg|Hg]; [apply T4, Hg|exact Hg].
+  Qed.
+
+  Lemma at_del_nodes_in g s d e n' :
+    In n' (gnodes (del_state g s d e)) ->
+    exists n, In n (gnodes g) /\ nid n' = nid n
+      /\ ninb n' = (if etype_eqb (ety e) Dir && name_eqb d (nid n)
+                    then remove_first s (ninb n) else ninb n)
+      /\ noutb n' = (if etype_eqb (ety e) Dir && name_eqb s (nid n)
+                     then remove_first d (noutb n) else noutb n).
+  Proof.
+    unfold del_state; simpl. destruct (etype_eqb (ety e) Dir); simpl.
+    - unfold update_node. rewrite map_map. intros H. apply in_map_iff in H.
+      destruct H as (n & <- & Hn). exists n. split; [exact Hn|].
+      destruct (name_eqb d (nid n)); simpl; destruct (name_eqb s (nid n)); simpl; auto.
+    - intros H. exists n'. auto.
+  Qed.
+
+  Lemma at_ins_nodes_in g e n' :
+    In n' (gnodes (insert_edge g e)) ->
+    exists n, In n (gnodes g) /\ nid n' = nid n
+      /\ ninb n' = (if etype_eqb (ety e) Dir && name_eqb (edst e) (nid n)
+                    then ninb n ++ [esrc e] else ninb n)
+      /\ noutb n' = (if etype_eqb (ety e) Dir && name_eqb (esrc e) (nid n)
+                     then noutb n ++ [edst e] else noutb n).
+  Proof.
+    rewrite at_insert_edge_eq; simpl. destruct (etype_eqb (ety e) Dir); simpl.
+    - unfold update_node. rewrite map_map. intros H. apply in_map_iff in H.
+      destruct H as (n & <- & Hn). exists n. split; [exact Hn|].
+      destruct (name_eqb (edst e) (nid n)); simpl; destruct (name_eqb (esrc e) (nid n)); simpl; auto.
+    - intros H. exists n'. auto.
+  Qed.
+
+  Lemma at_inv_del_state k g s d e :
+    Inv parse k g -> edge_at g s d = Some e -> Inv parse k (del_state g s d e).
+  Proof.
+    intros I He. unfold edge_at in He. apply at_find_edge_some in He.
+    destruct He as (Hin & <- & <-).
+    pose proof (at_del_same g (esrc e) (edst e) e) as Hsame.
+    assert (Hids : node_ids (del_state g (esrc e) (edst e) e) = node_ids g)
+      by (apply at_same_ids, Hsame).
+    assert (Hsub : forall e', In e' (gsrc (del_state g (esrc e) (edst e) e)) -> In e' (gsrc g)).
+    { intros e' H. simpl in H. unfold drop_edge in H. apply filter_In in H. apply H. }
+    assert (Hperm : Permutation (gsrc g) (e :: gsrc (del_state g (esrc e) (edst e) e))).
+    { simpl. rewrite <- (at_drop_perm (gsrc g) e (inv_nodup_keys I) Hin) at 1.
+      symmetry. apply Permutation_cons_append. }
+    assert (Hinto : forall y, Permutation (dir_into g y)
+               (if etype_eqb (ety e) Dir && name_eqb y (edst e)
+                then esrc e :: dir_into (del_state g (esrc e) (edst e) e) y
+                else dir_into (del_state g (esrc e) (edst e) e) y)).
+    { intros y. unfold dir_into.
+      eapply Permutation_trans; [apply Permutation_map, at_filter_perm, Hperm|].
+      simpl. destruct (etype_eqb (ety e) Dir && name_eqb y (edst e)); reflexivity. }
+    assert (Hfrom : forall y, Permutation (dir_from g y)
+               (if etype_eqb (ety e) Dir && name_eqb y (esrc e)
+                then edst e :: dir_from (del_state g (esrc e) (edst e) e) y
+                else dir_from (del_state g (esrc e) (edst e) e) y)).
+    { intros y. unfold dir_from.
+      eapply Permutation_trans; [apply Permutation_map, at_filter_perm, Hperm|].
+      simpl. destruct (etype_eqb (ety e) Dir && name_eqb y (esrc e)); reflexivity. }
+    constructor.
+    - rewrite Hids. apply (inv_nodup_nodes I).
+    - simpl. unfold drop_edge. apply at_filter_perm, (inv_mirror I).
+    - unfold edge_keys; simpl. apply at_nodup_keys_filter, (inv_nodup_keys I).
+    - intros e' He'. rewrite Hids. apply (inv_endpoints I), Hsub, He'.
+    - intros e' He'. apply (inv_noloop I), Hsub, He'.
+    - intros e' He' Hk. apply (inv_noreverse I e' (Hsub e' He')).
+      unfold edge_keys in *. simpl in Hk. eapply at_in_keys_filter; exact Hk.
+    - intros n' Hn'. destruct (at_del_nodes_in _ _ _ _ _ Hn') as (n & Hn & Ei & Eb & _).
+      rewrite Ei, Eb. specialize (Hinto (nid n)). rewrite (name_eqb_sym (nid n)) in Hinto.
+      destruct (etype_eqb (ety e) Dir && name_eqb (edst e) (nid n)).
+      + apply at_remove_first_perm_cons. rewrite <- Hinto. apply (inv_inb I n Hn).
+      + rewrite <- Hinto. apply (inv_inb I n Hn).
+    - intros n' Hn'. destruct (at_del_nodes_in _ _ _ _ _ Hn') as (n & Hn & Ei & _ & Eo).
+      rewrite Ei, Eo. specialize (Hfrom (nid n)). rewrite (name_eqb_sym (nid n)) in Hfrom.
+      destruct (etype_eqb (ety e) Dir && name_eqb (esrc e) (nid n)).
+      + apply at_remove_first_perm_cons. rewrite <- Hfrom. apply (inv_outb I n Hn).
+      + rewrite <- Hfrom. apply (inv_outb I n Hn).
+    - intros Ek. apply (inv_plain_idx I Ek).
+    - intros Ek. apply (at_tsinv_frame g); try reflexivity; [apply (inv_ts I Ek)|exact Hsame|].
+      intros e' He'. left. apply Hsub, He'.
+  Qed.
+
+  Lemma at_inv_insert k g e :
+    Inv parse k g -> esrc e <> edst e -> In (esrc e) (node_ids g) -> In (edst e) (node_ids g) ->
+    edge_at g (esrc e) (edst e) = None -> edge_at g (edst e) (esrc e) = None ->
+    (k = TS -> exists ls ld, node_lag g (esrc e) = Some ls /\ node_lag g (edst e) = Some ld
+                             /\ (ls <= ld)%Z) ->
+    Inv parse k (insert_edge g e).
+  Proof.
+    intros I Hne Hs Hd Hk Hr Ht.
+    pose proof (at_ins_same g e) as Hsame.
+    assert (Hids : node_ids (insert_edge g e) = node_ids g) by (apply at_same_ids, Hsame).
+    apply at_key_in_none in Hk, Hr.
+    assert (Hinto : forall y, dir_into (insert_edge g e) y
+               = dir_into g y ++ (if etype_eqb (ety e) Dir && name_eqb y (edst e)
+                                  then [esrc e] else [])).
+    { intros y. unfold dir_into. simpl. rewrite filter_app, map_app. simpl.
+      destruct (etype_eqb (ety e) Dir && name_eqb y (edst e)); reflexivity. }
+    assert (Hfrom : forall y, dir_from (insert_edge g e) y
+               = dir_from g y ++ (if etype_eqb (ety e) Dir && name_eqb y (esrc e)
+                                  then [edst e] else [])).
+    { intros y. unfold dir_from. simpl. rewrite filter_app, map_app. simpl.
+      destruct (etype_eqb (ety e) Dir && name_eqb y (esrc e)); reflexivity. }
+    constructor.
+    - rewrite Hids. apply (inv_nodup_nodes I).
+    - simpl. apply Permutation_app_tail, (inv_mirror I).
+    - unfold edge_keys; simpl. rewrite map_app. simpl.
+      apply (Permutation_NoDup (Permutation_cons_append _ _)).
+      constructor; [exact Hk|apply (inv_nodup_keys I)].
+    - intros e' He'. rewrite Hids. simpl in He'. apply in_app_iff in He'.
+      destruct He' as [He'|[<-|[]]]; [apply (inv_endpoints I), He'|auto].
+    - intros e' He'. simpl in He'. apply in_app_iff in He'.
+      destruct He' as [He'|[<-|[]]]; [apply (inv_noloop I), He'|exact Hne].
+    - intros e' He' Hin. unfold edge_keys in Hin. simpl in He', Hin. rewrite map_app in Hin.
+      apply in_app_iff in He'. apply in_app_iff in Hin.
+      destruct He' as [He'|[<-|[]]].
+      + destruct Hin as [Hin|[Hin|[]]]; [exact (inv_noreverse I e' He' Hin)|].
+        unfold edge_key in Hin. injection Hin as E1 E2. apply Hr.
+        rewrite E1, E2. apply (in_map edge_key _ _ He').
+      + destruct Hin as [Hin|[Hin|[]]]; [exact (Hr Hin)|].
+        unfold edge_key in Hin. injection Hin as E1 E2. congruence.
+    - intros n' Hn'. destruct (at_ins_nodes_in _ _ _ Hn') as (n & Hn & Ei & Eb & _).
+      rewrite Ei, Eb, Hinto. rewrite (name_eqb_sym (nid n)).
+      destruct (etype_eqb (ety e) Dir && name_eqb (edst e) (nid n)).
+      + apply Permutation_app_tail, (inv_inb I n Hn).
+      + rewrite app_nil_r. apply (inv_inb I n Hn).
+    - intros n' Hn'. destruct (at_ins_nodes_in _ _ _ Hn') as (n & Hn & Ei & _ & Eo).
+      rewrite Ei, Eo, Hfrom. rewrite (name_eqb_sym (nid n)).
+      destruct (etype_eqb (ety e) Dir && name_eqb (esrc e) (nid n)).
+      + apply Permutation_app_tail, (inv_outb I n Hn).
+      + rewrite app_nil_r. apply (inv_outb I n Hn).
+    - intros Ek. apply (inv_plain_idx I Ek).
+    - intros Ek. apply (at_tsinv_frame g); try reflexivity; [apply (inv_ts I Ek)|exact Hsame|].
+      intros e' He'. simpl in He'. apply in_app_iff in He'.
+      destruct He' as [He'|[<-|[]]]; [left; exact He'|right; apply Ht, Ek].
+  Qed.
+
+  Lemma at_inv_ext k g n ls vs :
+    Inv parse k g -> node_exists g (nid n) = false -> ninb n = [] -> noutb n = [] ->
+    idx_of k n ls vs -> node_ok k n -> Inv parse k (ext g [n] ls vs).
+  Proof.
+    intros I Hex Hi Ho Hidx Hok.
+    assert (Hfresh : ~ In (nid n) (node_ids g)) by (apply at_node_exists_false, Hex).
+    assert (Hids : node_ids (ext g [n] ls vs) = node_ids g ++ [nid n]).
+    { unfold node_ids, ext; simpl. rewrite map_app. reflexivity. }
+    assert (Hnone : forall f : edge -> name,
+               (forall e, In e (gsrc g) -> In (f e) (node_ids g)) ->
+               forall (P : edge -> bool), (forall e, P e = true -> f e = nid n) ->
+               filter P (gsrc g) = []).
+    { intros f Hf P HP. apply at_filter_all_false. intros e He.
+      destruct (P e) eqn:E; [|reflexivity]. exfalso. apply Hfresh. rewrite <- (HP e E).
+      apply Hf, He. }
+    constructor.
+    - rewrite Hids. apply (Permutation_NoDup (Permutation_cons_append _ _)).
+      constructor; [exact Hfresh|apply (inv_nodup_nodes I)].
+    - apply (inv_mirror I).
+    - apply (inv_nodup_keys I).
+    - intros e He. rewrite Hids. destruct (inv_endpoints I e He) as [H1 H2].
+      split; apply in_or_app; left; assumption.
+    - apply (inv_noloop I).
+    - apply (inv_noreverse I).
+    - intros n' Hn'. simpl in Hn'. apply in_app_iff in Hn'.
+      destruct Hn' as [Hn'|[<-|[]]]; [apply (inv_inb I n' Hn')|].
+      rewrite Hi. unfold dir_into. simpl.
+      rewrite (Hnone edst); [constructor|intros e He; apply (inv_endpoints I e He)|].
+      intros e He. apply andb_true_iff in He. destruct He as [_ He].
+      apply name_eqb_eq in He. auto.
+    - intros n' Hn'. simpl in Hn'. apply in_app_iff in Hn'.
+      destruct Hn' as [Hn'|[<-|[]]]; [apply (inv_outb I n' Hn')|].
+      rewrite Ho. unfold dir_from. simpl.
+      rewrite (Hnone esrc); [constructor|intros e He; apply (inv_endpoints I e He)|].
+      intros e He. apply andb_true_iff in He. destruct He as [_ He].
+      apply name_eqb_eq in He. auto.
+    - intros Ek. subst k. destruct Hidx as [-> ->]. simpl. rewrite !app_nil_r.
+      apply (inv_plain_idx I eq_refl).
+    - intros Ek. subst k. destruct Hidx as (l & v & Hl & Hv & -> & ->).
+      destruct (inv_ts I eq_refl) as [T1 T2 T3 T4]. constructor.
+      + intros n' Hn'. simpl in Hn'. apply in_app_iff in Hn'.
+        destruct Hn' as [Hn'|[<-|[]]]; [apply T1, Hn'|apply Hok; reflexivity].
+      + simpl. apply Forall2_app; [exact T2|]. constructor; [|constructor]. simpl; auto.
+      + simpl. apply Forall2_app; [exact T3|]. constructor; [|constructor]. simpl; auto.
+      + intros e He. simpl in He.
+        assert (Hlag : forall y, In y (node_ids g) ->
+                   node_lag (ext g [n] [(l, nid n)] [(v, nid n)]) y = node_lag g y).
+        { intros y Hy. unfold node_lag, get_node, ext; simpl. rewrite at_find_node_app.
+          destruct (find_node y (gnodes g)) eqn:F; [reflexivity|].
+          apply at_find_node_none in F. contradiction. }
+        destruct (inv_endpoints I e He) as [H1 H2].
+        rewrite (Hlag _ H1), (Hlag _ H2). apply T4, He.
+  Qed.
+
+  Lemma at_inv_facts : InvFacts.
+  Proof.
+    split; [|split].
+    - intros k g s d oty g' I H. apply at_delete_edge_ok in H.
+      destruct H as (e & He & _ & _ & ->). apply at_inv_del_state; assumption.
+    - intros k g s d ty m v g' I Hne Hs Hd Ht H. apply at_set_edge_ok in H.
+      destruct H as (-> & H1 & H2). apply at_inv_insert; simpl; assumption.
+    - intros k g id vt m g' I H. apply at_add_node_id_ok in H.
+      destruct H as (Hex & n & ls & vs & Hid & Hi & Ho & Hidx & -> & Hok).
+      apply at_inv_ext; try assumption. rewrite Hid; exact Hex.
+  Qed.
+
+
+  (** ** Invariant of states built by [add_edge] only (used by the non-vacuity examples) *)
+
+  Lemma at_inv_empty k m : Inv parse k (empty_graph m).
+  Proof.
+    constructor; simpl.
+    - constructor.
+    - constructor.
+    - constructor.
+    - intros e0 [].
+    - intros e0 [].
+    - intros e0 [].
+    - intros n0 [].
+    - intros n0 [].
+    - auto.
+    - intros _. constructor; simpl.
+      + intros n0 [].
+      + constructor.
+      + constructor.
+      + intros e0 [].
+  Qed.
+
+  Lemma at_add_endpoint_inv k g id o g1 :
+    Inv parse k g -> add_endpoint parse k g (id, o) = Ok g1 ->
+    Inv parse k g1 /\ node_exists g1 id = true
+    /\ (forall y, node_exists g y = true -> node_exists g1 y = true).
+  Proof.
+    intros I A. apply at_add_endpoint_ok in A.
+    destruct A as [[Hex ->]|(Hex & n & ls & vs & Hid & Hi & Ho & Hidx & -> & Hok)]; [auto|].
+    split; [|split].
+    - apply at_inv_ext; try assumption. rewrite Hid; exact Hex.
+    - rewrite at_node_exists_ext. simpl. rewrite Hid, name_eqb_refl. apply orb_true_r.
+    - intros y Hy. rewrite at_node_exists_ext, Hy. reflexivity.
+  Qed.
+
+  Lemma at_inv_add_edge k g sp dp ty m v g' gl :
+    Inv parse k g -> add_edge parse k g sp dp ty m v = (Ok g', gl) -> Inv parse k g'.
+  Proof.
+    intros I. rewrite at_add_edge_unfold. destruct sp as [s os], dp as [d od].
+    destruct (add_edge_try parse k g (s, os) (d, od) ty m v) as [[g3|e] gl'] eqn:T; [|discriminate].
+    intros [= <- _]. unfold add_edge_try in T. cbn [fst] in T.
+    destruct (name_eqb_spec s d) as [|Hne]; [discriminate|].
+    destruct (add_endpoint parse k g (s, os)) as [g1|] eqn:A1; [|discriminate].
+    destruct (add_endpoint parse k g1 (d, od)) as [g2|] eqn:A2; [|discriminate].
+    destruct (match edge_at g s d with Some _ => true | None => false end); [discriminate|].
+    destruct (orient k g2 s d ty) as [[s' d']|] eqn:Or; [|discriminate].
+    destruct (set_edge g2 s' d' ty _ v) as [g4|] eqn:Se; [|discriminate].
+    injection T as <- _.
+    destruct (at_add_endpoint_inv _ _ _ _ _ I A1) as (I1 & E1 & M1).
+    destruct (at_add_endpoint_inv _ _ _ _ _ I1 A2) as (I2 & E2 & M2).
+    apply M2 in E1. apply at_node_exists_in in E1, E2.
+    apply at_orient_ok in Or. destruct Or as [Hsd Hlag].
+    destruct at_inv_facts as (_ & HF2 & _).
+    destruct Hsd as [[-> ->]|[-> ->]]; eapply HF2; try exact Se; auto.
+  Qed.
+
+  Definition is_add_edge (o : op) : bool :=
+    match o with OAddEdge _ _ _ _ _ => true | _ => false end.
+
+  Lemma at_inv_run_add_edges k ops : forall g,
+    forallb is_add_edge ops = true -> Inv parse k g -> Inv parse k (run parse fmt k ops g).
+  Proof.
+    induction ops as [|o ops IH]; intros g Hops I; simpl; [exact I|].
+    simpl in Hops. apply andb_true_iff in Hops. destruct Hops as [Ho Hops].
+    apply IH; [exact Hops|]. destruct o; try discriminate. unfold step. cbn [run_op].
+    destruct (add_edge parse k g sp dp ty m validate) as [[g'|e] gl] eqn:A.
+    - pose proof A as A'. rewrite at_add_edge_unfold in A'.
+      destruct (add_edge_try parse k g sp dp ty m validate) as [[g3|e] gl']; [|discriminate].
+      injection A' as <- <-. simpl. eapply at_inv_add_edge; eassumption.
+    - simpl. apply at_add_edge_fail in A; [|apply at_inv_winv, I]. subst gl. exact I.
+  Qed.
+
+  (** * The main theorems *)
+
+  Theorem failed_step_equiv : failed_step_equiv_statement parse fmt.
+  Proof. apply at_failed_step_equiv_rel, at_inv_facts. Qed.
+
+  Theorem observe_equiv : observe_equiv_statement parse.
+  Proof. intros k g h pool lags vars I E. apply oe_observe; assumption. Qed.
+
+  Theorem failed_step_noop : failed_step_noop_statement parse fmt.
+  Proof.
+    intros k g o e pool lags vars I Hs H.
+    symmetry. apply observe_equiv; [exact I|]. apply equiv_sym.
+    eapply failed_step_equiv; eassumption.
+  Qed.
+  (** ** Sharper facts: where the state is literally unchanged, and why the model may return
+      the pre-call state for the failures it [lift]s *)
+
+  Definition not_retyping (o : op) : bool :=
+    match o with OChangeEdgeType _ _ _ | OReplaceEdge _ _ _ _ _ _ => false | _ => true end.
+
+  (** Every rejected single-element mutator other than change_edge_type / replace_edge leaves
+      the state literally unchanged (same insertion orders too). *)
+  Theorem failed_step_exact :
+    forall k g o e, Inv parse k g -> single_element o = true -> not_retyping o = true ->
+      outcome parse fmt k g o = Some e -> step parse fmt k g o = g.
+  Proof.
+    intros k g o e I Hs Hn. unfold outcome, step.
+    destruct o; simpl in Hs, Hn; try discriminate; cbn [run_op]; intros H.
+    - apply (at_lift_fail _ _ _ H).
+    - apply (at_lift_fail _ _ _ H).
+    - apply (at_lift_fail _ _ _ H).
+    - apply (at_lift_fail _ _ _ H).
+    - apply at_outcome_err in H. apply (at_replace_node_fail k at_inv_facts) in H; assumption.
+    - apply at_outcome_err in H. apply at_add_edge_fail in H; [exact H|apply at_inv_winv, I].
+    - apply at_outcome_err in H. apply at_add_time_edge_fail in H; assumption.
+    - apply (at_lift_fail _ _ _ H).
+  Qed.
+
+  (** [delete_node] can only fail before touching anything: under the invariant the index
+      upkeep and every incident [delete_edge] succeed, so the one failure is the KeyError
+      for an unknown identifier. *)
+  Lemma at_delete_node_err k g id e :
+    Inv parse k g -> delete_node k g id = Err e -> e = EKey /\ node_exists g id = false.
+  Proof.
+    intros I H. destruct (node_exists g id) eqn:Ex.
+    - destruct (at_delete_node_succeeds k at_inv_facts g id I Ex) as (g3 & E). congruence.
+    - split; [|reflexivity]. unfold delete_node in H. unfold node_exists in Ex.
+      destruct (get_node g id); [discriminate|]. congruence.
+  Qed.
+
+  (** [add_node] fails only at the name / duplicate checks, never in the index upkeep that
+      follows the insertion of the node. *)
+  Lemma at_idx_add_ok k g n : node_ok k n -> exists g1, idx_add k (push_node g n) n = Ok g1.
+  Proof.
+    unfold idx_add, node_ok. destruct k; [eexists; reflexivity|].
+    intros H. destruct (H eq_refl) as (v & l & _ & -> & ->). eexists; reflexivity.
+  Qed.
+
+  Lemma at_add_node_id_err k g id vt m e :
+    add_node_id parse k g id vt m = Err e ->
+    (e = ENodeDup /\ node_exists g id = true) \/ (e = EValue /\ k = TS /\ parse id = None).
+  Proof.
+    unfold add_node_id. destruct k.
+    - destruct (node_exists g id); [intros [= <-]; auto|]. simpl. discriminate.
+    - destruct (mk_node parse TS id vt _) as [n|x] eqn:Mk; cbn [bind].
+      + destruct (node_exists g id); [intros [= <-]; auto|].
+        destruct (mk_node parse TS id vt (nmeta n)) as [n2|x] eqn:Mk2; cbn [bind].
+        * apply at_mk_node in Mk2. destruct Mk2 as (_ & _ & _ & _ & Hok).
+          destruct (at_idx_add_ok TS g n2 Hok) as (g1 & ->). discriminate.
+        * unfold mk_node in Mk, Mk2. destruct (parse id) as [[v l]|]; discriminate.
+      + unfold mk_node in Mk. destruct (parse id) as [[v l]|]; [discriminate|].
+        injection Mk as <-. intros [= <-]. auto.
+  Qed.
+
+  (** The cycle branch of [_set_edge] inserts the edge, finds the cycle and deletes the edge
+      again; the model leaves the pre-insertion state there.  That is exact: deleting the edge
+      just inserted gives back the very same state. *)
+  Lemma at_find_edge_app s d l1 l2 :
+    find_edge s d (l1 ++ l2)
+    = match find_edge s d l1 with Some e => Some e | None => find_edge s d l2 end.
+  Proof.
+    induction l1 as [|a l1 IH]; simpl; [reflexivity|].
+    destruct (name_eqb s (esrc a) && name_eqb d (edst a)); [reflexivity|exact IH].
+  Qed.
+
+  Lemma at_drop_snoc l e :
+    find_edge (esrc e) (edst e) l = None -> drop_edge (esrc e) (edst e) (l ++ [e]) = l.
+  Proof.
+    intros H. unfold drop_edge. rewrite filter_app. simpl. rewrite !name_eqb_refl. simpl.
+    rewrite app_nil_r. apply at_filter_all_true. intros x Hx.
+    rewrite at_find_edge_none in H.
+    destruct (name_eqb_spec (esrc e) (esrc x)) as [E1|E1]; [|reflexivity].
+    destruct (name_eqb_spec (edst e) (edst x)) as [E2|E2]; [|reflexivity].
+    exfalso. apply (H x Hx). auto.
+  Qed.
+
+  Lemma at_remove_first_snoc x l : ~ In x l -> remove_first x (l ++ [x]) = l.
+  Proof.
+    induction l as [|y l IH]; simpl; intros H.
+    - rewrite name_eqb_refl. reflexivity.
+    - destruct (name_eqb_spec x y) as [E|E]; [exfalso; apply H; left; congruence|].
+      rewrite IH; [reflexivity|]. intros Hin; apply H; right; exact Hin.
+  Qed.
+
+  Lemma at_insert_then_delete k g e :
+    Inv parse k g -> In (esrc e) (node_ids g) -> In (edst e) (node_ids g) ->
+    edge_at g (esrc e) (edst e) = None ->
+    delete_edge (insert_edge g e) (esrc e) (edst e) None = Ok g.
+  Proof.
+    intros I Hs Hd Hk.
+    pose proof (at_ins_same g e) as Hsame.
+    rewrite (at_delete_edge_succeeds _ _ _ e).
+    2:{ rewrite (at_same_exists _ _ _ Hsame). apply at_node_exists_in, Hs. }
+    2:{ rewrite (at_same_exists _ _ _ Hsame). apply at_node_exists_in, Hd. }
+    2:{ unfold edge_at in *. simpl. rewrite at_find_edge_app, Hk. simpl.
+        rewrite !name_eqb_refl. reflexivity. }
+    f_equal. rewrite at_insert_edge_eq. unfold del_state. cbn [gnodes gsrc gdst gmeta glag gvar].
+    unfold edge_at in Hk.
+    assert (Hk' : find_edge (esrc e) (edst e) (gdst g) = None).
+    { rewrite (at_find_edge_perm (esrc e) (edst e) (gdst g) (gsrc g)); [exact Hk| |apply (inv_mirror I)].
+      eapply at_nodup_keys_perm; [symmetry; apply (inv_mirror I)|apply (inv_nodup_keys I)]. }
+    rewrite (at_drop_snoc _ _ Hk), (at_drop_snoc _ _ Hk').
+    assert (Hnodes : etype_eqb (ety e) Dir = true ->
+                     update_node (del_outb (edst e)) (esrc e)
+                       (update_node (del_inb (esrc e)) (edst e)
+                          (update_node (ins_outb (edst e)) (esrc e)
+                             (update_node (ins_inb (esrc e)) (edst e) (gnodes g)))) = gnodes g).
+    { intros Ety.
+      unfold update_node. rewrite !map_map. rewrite <- (map_id (gnodes g)) at 2.
+      apply map_ext_in. intros n Hn.
+      assert (Hni : name_eqb (edst e) (nid n) = true -> ~ In (esrc e) (ninb n)).
+      { intros E Hin. apply name_eqb_eq in E.
+        apply (Permutation_in _ (inv_inb I n Hn)) in Hin. unfold dir_into in Hin.
+        apply in_map_iff in Hin. destruct Hin as (x & Ex & Hx). apply filter_In in Hx.
+        destruct Hx as [Hx Hx']. apply andb_true_iff in Hx'. destruct Hx' as [_ Hx'].
+        apply name_eqb_eq in Hx'. rewrite at_find_edge_none in Hk. apply (Hk x Hx).
+        split; congruence. }
+      assert (Hno : name_eqb (esrc e) (nid n) = true -> ~ In (edst e) (noutb n)).
+      { intros E Hin. apply name_eqb_eq in E.
+        apply (Permutation_in _ (inv_outb I n Hn)) in Hin. unfold dir_from in Hin.
+        apply in_map_iff in Hin. destruct Hin as (x & Ex & Hx). apply filter_In in Hx.
+        destruct Hx as [Hx Hx']. apply andb_true_iff in Hx'. destruct Hx' as [_ Hx'].
+        apply name_eqb_eq in Hx'. rewrite at_find_edge_none in Hk. apply (Hk x Hx).
+        split; congruence. }
+      destruct n as [i t m inb outb]. simpl in *.
+      destruct (name_eqb (edst e) i) eqn:Ed; destruct (name_eqb (esrc e) i) eqn:Es; simpl;
+        rewrite ?Ed, ?Es; simpl; rewrite ?Ed, ?Es; simpl; rewrite ?Ed, ?Es; simpl;
+        unfold del_outb, del_inb, ins_outb, ins_inb; simpl;
+        rewrite ?(at_remove_first_snoc _ _ (Hni eq_refl)), ?(at_remove_first_snoc _ _ (Hno eq_refl));
+        reflexivity. }
+    destruct (etype_eqb (ety e) Dir); [rewrite (Hnodes eq_refl)|]; destruct g; reflexivity.
+  Qed.
 End Atomic.
+
+(** * Non-vacuity and pinned behaviour (codec instantiated with Names.parse / Names.fmt).
+    Each scenario below was also run on the real implementation
+    (PYTHONPATH=/repo /venv/bin/python): same exception class, same state afterwards. *)
+From CG Require Names.
+From Coq Require String Ascii.
+
+Module AtomicExamples.
+  Import String.
+  Definition nm (s : string) : name := map Ascii.N_of_ascii (list_ascii_of_string s).
+  Definition P := Names.parse.
+  Definition F := Names.fmt.
+  Definition e_add (s d : string) (ty : etype) : op :=
+    OAddEdge (str_ep (nm s)) (str_ep (nm d)) ty None true.
+
+  (** (i) Plain: c -- a, a -> b, b -> c; change_edge_type(c, a, ->) closes a cycle. *)
+  Definition ops_i : list op := [e_add "c" "a" Und; e_add "a" "b" Dir; e_add "b" "c" Dir].
+  Definition g_i : graph := run P F Plain ops_i (empty_graph []).
+  Definition o_i : op := OChangeEdgeType (nm "c") (nm "a") Dir.
+  Definition pool_i : list name := [nm "a"; nm "b"; nm "c"; nm "zz"].
+
+  Example ex_i_inv : Inv P Plain g_i.
+  Proof. apply at_inv_run_add_edges; [reflexivity|apply at_inv_empty]. Qed.
+  Example ex_i_single : single_element o_i = true.
+  Proof. reflexivity. Qed.
+  Example ex_i_outcome : outcome P F Plain g_i o_i = Some ECyclic.
+  Proof. vm_compute. reflexivity. Qed.
+  (** the restored edge has moved to the end of the by-source index: the state is not
+      literally the input, only [equiv] to it *)
+  Example ex_i_order :
+    map edge_key (gsrc g_i) = [(nm "c", nm "a"); (nm "a", nm "b"); (nm "b", nm "c")]
+    /\ map edge_key (gsrc (step P F Plain g_i o_i))
+       = [(nm "a", nm "b"); (nm "b", nm "c"); (nm "c", nm "a")]
+    /\ map ety (gsrc (step P F Plain g_i o_i)) = [Dir; Dir; Und].
+  Proof. vm_compute. repeat split. Qed.
+  Example ex_i_equiv : equiv (step P F Plain g_i o_i) g_i.
+  Proof. exact (failed_step_equiv P F Plain g_i o_i ECyclic ex_i_inv ex_i_single ex_i_outcome). Qed.
+  Example ex_i_noop :
+    observe P Plain (step P F Plain g_i o_i) pool_i [] [] = observe P Plain g_i pool_i [] [].
+  Proof.
+    exact (failed_step_noop P F Plain g_i o_i ECyclic pool_i [] [] ex_i_inv ex_i_single ex_i_outcome).
+  Qed.
+  (** the same equality, computed *)
+  Example ex_i_noop_computed :
+    observe P Plain (step P F Plain g_i o_i) pool_i [] [] = observe P Plain g_i pool_i [] [].
+  Proof. vm_compute. reflexivity. Qed.
+  (** [observe_equiv] applied to two different, equivalent states *)
+  Example ex_i_observe_equiv_nontrivial :
+    step P F Plain g_i o_i <> g_i
+    /\ Inv P Plain g_i /\ equiv g_i (step P F Plain g_i o_i).
+  Proof.
+    split; [|split; [exact ex_i_inv|apply equiv_sym, ex_i_equiv]].
+    intros E. apply (f_equal (fun g => map edge_key (gsrc g))) in E. vm_compute in E. discriminate E.
+  Qed.
+
+  (** (ii) TS: "z" -> "w future(n=1)"; add_edge("x", "y lag(n=1)") is directed against time:
+      ValueError, and neither implicitly created endpoint is left behind. *)
+  Definition g_ii : graph := run P F TS [e_add "z" "w future(n=1)" Dir] (empty_graph []).
+  Definition o_ii : op := e_add "x" "y lag(n=1)" Dir.
+  Example ex_ii_inv : Inv P TS g_ii.
+  Proof. apply at_inv_run_add_edges; [reflexivity|apply at_inv_empty]. Qed.
+  Example ex_ii_outcome : outcome P F TS g_ii o_ii = Some EValue.
+  Proof. vm_compute. reflexivity. Qed.
+  Example ex_ii_state :
+    step P F TS g_ii o_ii = g_ii /\ map nid (gnodes g_ii) = [nm "z"; nm "w future(n=1)"].
+  Proof. vm_compute. split; reflexivity. Qed.
+  Example ex_ii_noop :
+    observe P TS (step P F TS g_ii o_ii) [nm "x"; nm "y lag(n=1)"; nm "z"] [0; -1; 1]%Z [nm "y"; nm "z"]
+    = observe P TS g_ii [nm "x"; nm "y lag(n=1)"; nm "z"] [0; -1; 1]%Z [nm "y"; nm "z"].
+  Proof. eapply failed_step_noop; [exact ex_ii_inv|reflexivity|exact ex_ii_outcome]. Qed.
+  (** the first endpoint alone is unparsable: nothing is created either *)
+  Example ex_ii_bad_name :
+    outcome P F TS g_ii (e_add "u lag(n=1) lag(n=2)" "z" Dir) = Some EValue
+    /\ step P F TS g_ii (e_add "u lag(n=1) lag(n=2)" "z" Dir) = g_ii
+    /\ outcome P F TS g_ii (e_add "q" "u lag(n=1) lag(n=2)" Und) = Some EValue
+    /\ step P F TS g_ii (e_add "q" "u lag(n=1) lag(n=2)" Und) = g_ii.
+  Proof. vm_compute. repeat split. Qed.
+
+  (** (iii) Plain: a -> b -> c, d -> a; replace_edge(d, a, new c, a) closes a cycle. *)
+  Definition ops_iii : list op := [e_add "d" "a" Dir; e_add "a" "b" Dir; e_add "b" "c" Dir].
+  Definition g_iii : graph := run P F Plain ops_iii (empty_graph []).
+  Definition o_iii : op := OReplaceEdge (nm "d") (nm "a") (nm "c") (nm "a") None None.
+  Example ex_iii_inv : Inv P Plain g_iii.
+  Proof. apply at_inv_run_add_edges; [reflexivity|apply at_inv_empty]. Qed.
+  Example ex_iii_outcome : outcome P F Plain g_iii o_iii = Some ECyclic.
+  Proof. vm_compute. reflexivity. Qed.
+  Example ex_iii_state :
+    map edge_key (gsrc (step P F Plain g_iii o_iii))
+    = [(nm "a", nm "b"); (nm "b", nm "c"); (nm "d", nm "a")]
+    /\ map edge_key (isort pair_leb_e (gsrc (step P F Plain g_iii o_iii)))
+       = map edge_key (isort pair_leb_e (gsrc g_iii)).
+  Proof. vm_compute. split; reflexivity. Qed.
+  Example ex_iii_equiv : equiv (step P F Plain g_iii o_iii) g_iii.
+  Proof. eapply failed_step_equiv; [exact ex_iii_inv|reflexivity|exact ex_iii_outcome]. Qed.
+  (** a rejected replace_edge towards fresh nodes leaves none of them behind *)
+  Example ex_iii_fresh :
+    outcome P F Plain g_iii (OReplaceEdge (nm "d") (nm "a") (nm "n1") (nm "n1") None None)
+      = Some ECyclic
+    /\ map nid (gnodes (step P F Plain g_iii
+                          (OReplaceEdge (nm "d") (nm "a") (nm "n1") (nm "n1") None None)))
+       = map nid (gnodes g_iii).
+  Proof. vm_compute. split; reflexivity. Qed.
+
+  (** (iv) TS: "y" -> "z future(n=1)", "w lag(n=1)" -> "y"; replace_node("y", time_lag=2)
+      copies the inbound edge onto "y future(n=2)", then the outbound copy is against time:
+      ValueError; the new node and the copy made so far are removed again. *)
+  Definition ops_iv : list op := [e_add "y" "z future(n=1)" Dir; e_add "w lag(n=1)" "y" Dir].
+  Definition g_iv : graph := run P F TS ops_iv (empty_graph []).
+  Definition o_iv : op := OReplaceNode (nm "y") None (Some 2%Z) None (Some VUnspec) None.
+  Example ex_iv_inv : Inv P TS g_iv.
+  Proof. apply at_inv_run_add_edges; [reflexivity|apply at_inv_empty]. Qed.
+  Example ex_iv_outcome : outcome P F TS g_iv o_iv = Some EValue.
+  Proof. vm_compute. reflexivity. Qed.
+  Example ex_iv_state : step P F TS g_iv o_iv = g_iv.
+  Proof. vm_compute. reflexivity. Qed.
+  Example ex_iv_equiv : equiv (step P F TS g_iv o_iv) g_iv.
+  Proof. eapply failed_step_equiv; [exact ex_iv_inv|reflexivity|exact ex_iv_outcome]. Qed.
+  (** the copy really was made before the failure: the same re-lagging without the outbound
+      edge succeeds *)
+  Example ex_iv_copy_made :
+    outcome P F TS (run P F TS [e_add "w lag(n=1)" "y" Dir] (empty_graph [])) o_iv = None.
+  Proof. vm_compute. reflexivity. Qed.
+End AtomicExamples.
+
+Print Assumptions failed_step_equiv.
+Print Assumptions observe_equiv.
+Print Assumptions failed_step_noop.
+Print Assumptions failed_step_equiv_partial.
+Print Assumptions AtomicExamples.ex_i_noop.
